@@ -52,6 +52,13 @@ def car_derived(fn, carlike=()):
             return op.get("c") in ("copy", "move") and op["pl"]["l"] in der
         if k in ("ref", "rawptr"):
             return x["pl"]["l"] in der
+        if k == "agg" and x.get("adt") in ("std::option::Option", "std::result::Result"):
+            if x["adt"].endswith("Result") and x.get("variant") == 1:
+                return True          # Err(..) carries no cell: it does not spoil "the Ok value is car-derived"
+            if len(x["fields"]) == 0:
+                return True          # None
+            f0 = x["fields"][0]
+            return f0.get("c") in ("copy", "move") and f0["pl"]["l"] in der     # Some(entry) / Ok(entry)
         return False
 
     while changed:
